@@ -50,7 +50,7 @@ def check_node(spec, i, ins, outs):
     elif k == "latest":
         exp = []
         for o in outs:
-            m = [a for a in arr if a[1] is o[0]]
+            m = [a for a in arr if a[1] is o[0] and a[4] < o[3]]
             exp.append(ids(m[-1][2]) if m else None)
     elif k == "timed_window":
         exp = []
